@@ -137,7 +137,10 @@ impl Rw {
                 Expr::ForLoop(_) => "for".to_string(),
                 Expr::Loop(_) => "loop".to_string(),
                 Expr::Match(_) => "match".to_string(),
-                Expr::Return(_) => "return".to_string(),
+                Expr::Return(r) => match &r.expr {
+                    Some(x) => format!("return_{}", sanitize(&x.to_token_stream().to_string(), 40)),
+                    None => "return".to_string(),
+                },
                 Expr::Block(_) => "block".to_string(),
                 Expr::Assign(a) => format!("set_{}", sanitize(&a.left.to_token_stream().to_string(), 40)),
                 other => format!("do_{}", sanitize(&other.to_token_stream().to_string(), 40)),
